@@ -286,6 +286,51 @@ def mk_factory(kind):
     return h
 
 
+YAML_FACTORIES = {'reset': F.factory_reset_function, 'transition': F.factory_transition_function, 'reward': F.factory_reward_function,
+                  'terminating': F.factory_terminating_function, 'observation': F.factory_observation_function, 'visibility': F.factory_visibility_function}
+# one YAML-style value per parameter name (what a configuration file would say)
+CATALOGUE = {
+    'shape': lambda: [7, 9], 'layout': lambda: [2, 3], 'area': lambda: [[-4, 0], [-2, 2]], 'object_type': lambda: 'Exit', 'colors': lambda: ['RED', 'BLUE'],
+    'distance_function': lambda: 'euclidean', 'num_rivers': lambda: 2, 'num_obstacles': lambda: 3, 'num_beacons': lambda: 2, 'num_exits': lambda: 2,
+    'random_agent': lambda: True, 'random_exit': lambda: True,
+    'transition_functions': lambda: [{'name': 'move_agent'}, {'name': 'chain', 'transition_functions': [{'name': 'turn_agent'}, {'name': 'pickndrop'}]}],
+    'reward_functions': lambda: [{'name': 'living_reward', 'reward': -0.5}, {'name': 'reduce_sum', 'reward_functions': [{'name': 'reach_exit', 'reward_on': 3.0},
+                                                                                                                        {'name': 'overlap', 'object_type': 'Key'}]}],
+    'terminating_functions': lambda: [{'name': 'reach_exit'}, {'name': 'reduce_all', 'terminating_functions': [{'name': 'bump_into_wall'}, {'name': 'overlap', 'object_type': 'Beacon'}]}],
+    'visibility_function': lambda: {'name': 'partially_occluded'},
+}
+
+
+def mk_yaml_entry(kind):
+    """a single configuration entry (any registered name, any subset of its optional parameters, nested entries included) handed to the
+    YAML-level factory: the entry is left unchanged, a second build from the SAME object agrees, and both are the hand assembly"""
+    def h(sx):
+        names = sorted(REG[kind].keys() if hasattr(REG[kind], 'keys') else REG[kind])
+        name = sx.choice('name', names)
+        func = REG[kind][name]
+        params = [p for p in inspect.signature(func).parameters.values() if p.name not in PROTOCOL[kind]]
+        data = {'name': name}
+        for prm in params:
+            required = prm.default is inspect.Parameter.empty
+            if prm.name not in CATALOGUE and not prm.name.startswith('reward'):
+                if required:
+                    sx.assume(False)  # not expressible in a configuration file (e.g. a python callable)
+                continue
+            if required or sx.choice(f'give_{prm.name}', [True, False]):
+                data[prm.name] = CATALOGUE[prm.name]() if prm.name in CATALOGUE else 2.5
+        pristine = copy.deepcopy(data)
+        sx.cover('yaml-entry-' + kind)
+        first = YAML_FACTORIES[kind](data)
+        sx.check(data == pristine, 'building-leaves-the-entry-unchanged', f'{pristine} became {data}')
+        second = YAML_FACTORIES[kind](data)
+        sx.check(data == pristine, 'second-build-leaves-the-entry-unchanged', f'{pristine} became {data}')
+        hand = hand_component(kind, pristine)
+        sx.check(describe(first) == describe(second), 'second-build-from-the-same-entry-agrees', f'{describe(first)} vs {describe(second)}')
+        if isinstance(first, partial):
+            sx.check(describe(first) == describe(hand), 'entry-builds-the-named-component-with-the-given-parameters', f'{describe(first)} vs {describe(hand)}')
+    return h
+
+
 def h_factory_unknown(sx):
     kind = sx.choice('kind', sorted(FACTORIES))
     sx.cover('unknown-name')
@@ -408,6 +453,8 @@ def obligations(tier):
         obs.append(Obligation(f'reset-{base}', mk_reset(path, base in small), dict(file=os.path.relpath(path, REPO), draws='symbolic' if base in small else 'seeds 0..4')))
     for kind in FACTORIES:
         obs.append(Obligation(f'factory-{kind}', mk_factory(kind), dict(registry=kind)))
+    for kind in YAML_FACTORIES:
+        obs.append(Obligation(f'yaml-entry-{kind}', mk_yaml_entry(kind), dict(registry=kind, parameters='any subset of the optional ones; nested entries two levels deep')))
     obs.append(Obligation('factory-unknown-name', h_factory_unknown))
     obs.append(Obligation('shape-layout-entries', h_shape_layout))
     obs.append(Obligation('side-files-and-ids', side_files(), kind='concrete'))
